@@ -6,6 +6,7 @@ import SA.Props.C02
 import SA.Proofs.AcceptTimed
 import SA.Gen.Locks
 import SA.Gen.PkgVars
+import SA.Gen.LoopVars
 namespace SA.Accept
 
 /-- **no_hol_if_off_loop**: when the session handshake runs off the accept loop, then for every set of
@@ -96,3 +97,17 @@ theorem C15_no_hidden_process_state :
 end SA.PkgState
 
 #print axioms SA.PkgState.C15_no_hidden_process_state
+
+namespace SA.PkgState
+/-- **per_item_handlers**: the module's language version is go 1.14 — a loop has one variable for all its iterations.
+    No function literal inside a loop body captures a variable that the loop (re)assigns on every iteration, so the
+    handler, callback or goroutine set up for one channel / endpoint / connection is not silently bound to a later
+    one (regenerated inventory).  The three entries are addresses of a loop variable that are consumed before the next
+    iteration: `EndpointHandler(&endpoint, …)` reads one field synchronously, and the two command look-ups leave their
+    loop at once (`cmd = &c; break` / `return`). -/
+theorem C15_per_item_handlers :
+    Gen.goDirective = "1.14" ∧
+    Gen.loopVarCaptures = ["internal/server/http_server.go Startup: address of loop variable endpoint taken", "internal/streams/dns/commands/serializer.go DetectCommandType: address of loop variable v taken", "internal/streams/dns/dns_server_connection.go onMessage: address of loop variable c taken"] := by decide
+end SA.PkgState
+
+#print axioms SA.PkgState.C15_per_item_handlers
